@@ -306,6 +306,59 @@ fn env_seqs() -> Vec<i32> {
     v
 }
 
+/// C04 over message envelopes: `message_begin_len + message_end_len` of every length
+/// protocol against the bytes its writer produces (same names / sequence ids / message
+/// types as the conformance cases above).
+pub(crate) fn envelope_sizes(frag: &mut Frag) {
+    use pilota::thrift::TLengthProtocol;
+    for name in env_names() {
+        for seq in env_seqs() {
+            for mt in 1u8..=4 {
+                let ident = TMessageIdentifier::new(
+                    unsafe { faststr::FastStr::from_bytes_unchecked(Bytes::copy_from_slice(&name)) },
+                    mtype_of(mt).unwrap(),
+                    seq,
+                );
+                for wp in CONF_WP {
+                    frag.eval();
+                    frag.count(&format!("{}.envelope_len", wp.name()));
+                    let case = json!({"envelope": {"name_len": name.len(), "mtype": mt, "seq": seq, "protocol": wp.name()}});
+                    let reported = catch(|| match wp {
+                        WP::Binary => {
+                            let mut p = TBinaryProtocol::new((), false);
+                            p.message_begin_len(&ident) + p.message_end_len()
+                        }
+                        WP::Compact => {
+                            let mut p = TCompactOutputProtocol::new((), false);
+                            p.message_begin_len(&ident) + p.message_end_len()
+                        }
+                        _ => {
+                            let mut b = BytesMut::new();
+                            let s: &'static mut [u8] = &mut [];
+                            let mut p = unsafe { TBinaryUnsafeOutputProtocol::new(&mut b, s, false) };
+                            p.message_begin_len(&ident) + p.message_end_len()
+                        }
+                    });
+                    let written = catch(|| write_envelope(wp, 0, &ident));
+                    match (reported, written) {
+                        (Ok(r), Ok(Ok(w))) => {
+                            if r != w.len() {
+                                frag.violation(
+                                    &format!("c04|{}|envelope|reported-vs-written", wp.name()),
+                                    &format!("message_begin_len + message_end_len = {} but write_message_begin/_end wrote {} bytes (name {} bytes, type {}, seq {})", r, w.len(), name.len(), mt, seq),
+                                    case.clone(),
+                                );
+                            }
+                        }
+                        (Err(p), _) | (_, Err(p)) => frag.violation(&format!("c04|{}|envelope|panic|{}", wp.name(), p.site()), &format!("{} {}", p.location, p.message), case.clone()),
+                        (_, Ok(Err(e))) => frag.violation(&format!("c04|{}|envelope|write-error", wp.name()), &e, case.clone()),
+                    }
+                }
+            }
+        }
+    }
+}
+
 fn check_envelopes(frag: &mut Frag) {
     let names = env_names();
     let seqs = env_seqs();
